@@ -136,10 +136,21 @@ func c05GenesisProbe(c *fw.Case) {
 		{"surplus", 1 + r.Intn(3), d, false},
 		{"deficit", 1 + r.Intn(3), -d, false},
 		{"no pools, empty module account", 0, 0, true},
+		// the module account matches the sum, but one pool has paid out more than was ever
+		// locked in it (withdrawn + sent > initially locked) at the expense of another
+		{"over-drawn pool", -1, 0, false},
 	}
 	for _, v := range variants {
 		for _, skip := range []bool{false, true} {
 			vg := &vesttypes.GenesisState{Params: vesttypes.Params{Denom: vDenom}, VestingTypes: vts}
+			if v.pools < 0 {
+				if skip {
+					continue // only the genesis invariants know about a single pool's bounds
+				}
+				over := mkPool("over", 100)
+				over.Withdrawn = sdk.NewInt(100 + d)
+				vg.AccountVestingPools = []*vesttypes.AccountVestingPools{{Owner: owner.Bech(), VestingPools: []*vesttypes.VestingPool{over, mkPool("other", 5000+d)}}}
+			}
 			if v.pools > 0 {
 				avp := &vesttypes.AccountVestingPools{Owner: owner.Bech()}
 				for i := 0; i < v.pools; i++ {
